@@ -3,6 +3,7 @@ package rules
 import (
 	"fmt"
 	"go/token"
+	"go/types"
 	"sort"
 	"strings"
 
@@ -21,6 +22,12 @@ func linTerms(v ssa.Value) (map[ssa.Value]int, int64) {
 		if c, ok := model.ConstInt(v); ok {
 			k += int64(sign) * c
 			return
+		}
+		if cv, ok := v.(*ssa.Convert); ok && d < 20 {
+			if _, isInt := cv.X.Type().Underlying().(*types.Basic); isInt && isInteger(cv.X.Type()) && isInteger(cv.Type()) {
+				rec(cv.X, sign, d+1)
+				return
+			}
 		}
 		if b, ok := v.(*ssa.BinOp); ok && d < 20 {
 			switch b.Op {
